@@ -29,12 +29,12 @@ META = {
 NPM = 'Scalibr.Npm.'
 POM = 'Scalibr.Pom.'
 THEOREMS = [NPM + 'C13_npm_escape', NPM + 'C13_npm_roundtrip_partial', NPM + 'C13_npm_identity', NPM + 'C13_npm_no_silent_success',
-            NPM + 'C13_npm_present_applied', NPM + 'C13_npm_alias_at_witness', NPM + 'C13_npm_alias_separate_fixed_witness', NPM + 'C13_npm_read_complete', NPM + 'C13_npm_read_complete_old_witness', NPM + 'C13_npm_absent_key_witness',
+            NPM + 'C13_npm_present_applied', NPM + 'C13_npm_alias_at_witness', NPM + 'C13_npm_alias_separate_fixed_witness', NPM + 'C13_npm_read_complete', NPM + 'C13_npm_read_complete_old_witness', NPM + 'C13_npm_absent_key_witness', NPM + 'C13_npm_every_update_applied',
             NPM + 'C13_npm_bytes_partial', NPM + 'C13_npm_bytes_untouched_partial', NPM + 'C13_npm_bytes_identity',
             POM + 'C13_pom_props_total', POM + 'C13_pom_props_fuel_adequate', POM + 'C13_pom_props_sound', POM + 'C13_pom_props_repeated_name_fixed',
             POM + 'C13_pom_props_fixed_witnesses', POM + 'C13_pom_identity', POM + 'C13_pom_invalid_name_error',
             POM + 'C13_pom_literal_roundtrip_partial', POM + 'C13_pom_no_silent_success_partial',
-            POM + 'C13_pom_class_witnesses', POM + 'C13_pom_ignores_version_from_witness', POM + 'C13_pom_other_profile_witness', POM + 'C13_pom_fixed_witnesses',
+            POM + 'C13_pom_class_witnesses', POM + 'C13_pom_origin_fixed_witnesses', POM + 'C13_pom_ignores_version_from_witness', POM + 'C13_pom_other_profile_witness', POM + 'C13_pom_fixed_witnesses',
             POM + 'C13_pom_project_key_fixed_witness', POM + 'C13_pom_key_property_witness',
             'Scalibr.PomTok.C13_pom_tokens_identity_partial', 'Scalibr.PomTok.C13_pom_tokens_fuel_adequate', 'Scalibr.PomTok.C13_pom_tokens_comment_witness']
 
@@ -141,7 +141,10 @@ def run(ctx):
             if r.startswith('ok-missing') or r == 'ok-rereaderr':
                 return 'pom.xml Write, local parent chain: ' + r + ' (every file of the chain must be written next to the output and read back)'
             if r == 'ok':
-                if fi.get('chain') != fm.get('spec'):
+                want = fm.get('spec')
+                if fi.get('added', '-') not in ('-', ''):      # requirements that did not exist: a dependencyManagement entry of the manifest each
+                    want = ','.join(sorted([x for x in (want or '-').split(',') if x != '-'] + fi['added'].split(',')))
+                if fi.get('chain') != want:
                     return 'pom.xml, local parent chain: re-read requirements of the child (parents merged) differ from substitute(original, updates)'
                 if fi.get('same') != '1':
                     return 'pom.xml, local parent chain: a pom of the chain that no update addresses is not byte-identical'
